@@ -56,4 +56,7 @@ Extraction "model.ml"
   CliModel.clap_accepts
   CliModel.clap_usage_error_exit
   CliDoc.overlapping_config
+  CliDoc.nonutf8_argv_with_config
+  CliDoc.double_dash_config
+  CliDoc.unknown_theme
 .
